@@ -19,7 +19,8 @@ RULE = ("composed-stack exploration: client A sets a state vector and calls appl
         "settable field against 4 base vectors + a strength-2 covering design, display via toggle_display, x {V2,V3} x credential "
         "and device-id alphabets. Environment (E2, deviation-bounded DFS over choice points owned by the simulated device): per "
         "reply, delivery in separate segments / coalesced / cut at every byte offset / byte by byte, and an unsolicited truthful "
-        "state report (frame type 05 or 04), a duplicate of the reply or an unsolicited B5 notification before and/or after it. "
+        "state report (frame type 05 or 04), a duplicate of the reply or an unsolicited B5 notification before and/or after it; on V3 "
+        "optionally an idle period past the 12 h authentication lifetime between two applies. "
         "Oracle: reference-device state == applied vector; A's and B's public attributes == device state. "
         "state = (vector, protocol, choice prefix); transition = one choice point answered")
 ASSUMPTIONS = ["unsolicited reports are truthful", "segments of one reply arrive 1 microsecond apart and before the read timeout",
@@ -145,6 +146,9 @@ def execute(vec, version, ch: Chooser, cred=3, dev_id=0x0000_A1B2_C3D4_E5F6, cut
         dz.apply_to_client(a, pre)
         await a.apply()
         await asyncio.sleep(0.05)       # operations do not overlap with in-flight bytes of the previous one
+        if version == 3 and ch.pick("idle>12h", 2):
+            # the session idles past the 12 h authentication lifetime (whatever is still unread stays queued)
+            rig.w.loop.jump(13 * 3600)
         dz.apply_to_client(a, vec)
         await a.apply()
         await asyncio.sleep(0.05)
